@@ -50,6 +50,8 @@ for dst in sorted(glob.glob(f'{VERIF}/seeded/C*-m*')):
     had_broken = any(r['exit'] not in (0, 1) for r in meta.get('checks', {}).values())
     if meta.get('confirmed') and not recheck and not only and not had_broken:
         continue
+    if prop not in claimed and not allprops and not only:
+        continue  # its own check does not exist yet
     dest, run = demo_info(f'{dst}/demo_test.go')
     t0 = time.time()
     first = [prop] if prop in claimed else []
